@@ -34,10 +34,12 @@ MANIFEST = dict(
          "among its lattice neighbours, that the index entries partition the solution into the named tables, that "
          "the KKT solution satisfies C x = 0 exactly, has its residual gradient in the row space of C (all (p+1)-minors "
          "vanish; orthogonal to every lattice vector of null(C)) and is the minimiser among feasible lattice "
-         "neighbours; deliberately wrong models (A A^T, A b, sign, constraint ignored, feasible non-optimal point) are "
+         "neighbours, and does not change when constraint rows are multiplied by non-zero integers; deliberately wrong models (A A^T, A b, sign, constraint ignored, feasible non-optimal point) are "
          "refuted by the same laws. Every exported system is then solved by the real code: csg_imc_solve -i -g -n -r "
          "on generated files (every *.dpot.imc compared row by row, grid and value, 1e-7) and "
-         "linalg_constrained_qrsolve(A, b, C) (1e-9). csg_fmatch: TLC generates lattice trajectories (5-6 beads, "
+         "linalg_constrained_qrsolve(A, b, C) (1e-9), the latter a second time with the constraint rows scaled by 2^k, "
+         "k in {0, +-20, +-40, +-70} supplied by TLC (same rational expected, C x = 0 evaluated against the unscaled C). "
+         "csg_fmatch: TLC generates lattice trajectories (5-6 beads, "
          "1-3 blocks of 1-3 frames plus an incomplete trailing block, constrained and plain least squares, spline grid "
          "of 4-5 knots, integer knot values, optional integer noise on the forces) and guards in exact integer "
          "arithmetic that every block's least-squares problem has full rank (no force cancellation, >= 2 distinct "
@@ -231,9 +233,18 @@ def con_cmd(rec):
     return "cq %d %d %d %s" % (rec["m"], rec["n"], rec["p"], " ".join(num(v) for v in flat))
 
 
-def compare_con(ctx, rec, lines):
-    """returns [(key, text)] ; lines = driver output of the one command"""
-    tag = "constrained_qrsolve:p=%d" % rec["p"]
+def con_cmd_scaled(rec):
+    """same problem with constraint row i multiplied by 2^kexp[i] (exact in floating point, exact as 17-digit text)"""
+    flat = [num(v) for row in rec["A"] for v in row] + [num(v) for v in rec["b"]]
+    flat += [repr(float(v) * 2.0 ** k) for row, k in zip(rec["C"], rec["kexp"]) for v in row]
+    return "cq %d %d %d %s" % (rec["m"], rec["n"], rec["p"], " ".join(flat))
+
+
+def compare_con(ctx, rec, lines, scaled=False):
+    """returns [(key, text)] ; lines = driver output of the one command.  scaled: the routine was given diag(2^k) C;
+    the expectation is the SAME rational (row scaling does not change the minimiser) and C x = 0 is evaluated
+    against the unscaled C of the TLC record."""
+    tag = "constrained_qrsolve:p=%d" % rec["p"] + (":row-scaled" if scaled else "")
     ex = [ln for ln in lines if ln.startswith("exc")]
     if ex:
         if rec["zerocol"] and "zero_column" in ex[0]:
@@ -586,7 +597,12 @@ def _run(ctx, quick, workers, exe_imc, exe_drv, env, base, exe_fm):
     ctx.extra["tikhonov_systems_by_n"] = {str(k): v for k, v in sorted(shapes.items())}
 
     # ---- (ii) linalg_constrained_qrsolve ----------------------------------------------------------------
-    items = [(i, [con_cmd(r)]) for i, r in enumerate(con)]
+    items = [(i, [con_cmd(r), con_cmd_scaled(r)]) for i, r in enumerate(con)]
+    if con and not getattr(ctx, "replay", None) and not any(
+            r["p"] == 2 and abs(r["kexp"][0] - r["kexp"][1]) >= 60 for r in con):
+        raise vlib.InfraError("row-scaling relation vacuous: no instance with |k1 - k2| >= 60")
+    ctx.extra["row_scaling_instances_with_exponent_gap_ge_60"] = sum(
+        1 for r in con if r["p"] == 2 and abs(r["kexp"][0] - r["kexp"][1]) >= 60)
     results, crashes = vlib.run_items(exe_drv, items, env=env) if items else ({}, {})
     shapes = {}
     for i, rec in enumerate(con):
@@ -601,6 +617,8 @@ def _run(ctx, quick, workers, exe_imc, exe_drv, env, base, exe_fm):
             continue
         for key, text in compare_con(ctx, rec, results[i][0]):
             ctx.violation(key, text + " " + con_text(rec), rec)
+        for key, text in compare_con(ctx, rec, results[i][1], scaled=True):
+            ctx.violation(key, text + " [constraint rows scaled by 2^%s] " % rec["kexp"] + con_text(rec), rec)
         if i in (0, len(con) - 1):
             ctx.sample({"linalg_constrained_qrsolve": con_text(rec), "x": "%s/%d" % (rec["num"], rec["den"])})
     ctx.extra["constrained_systems_by_shape"] = shapes
